@@ -1,7 +1,7 @@
 /-
   C05 — result caching is transparent.
 
-  FULL STATEMENT (kept visible, FALSE of the code base — known findings C05-F1 … C05-F4):
+  FULL STATEMENT (kept visible, FALSE of the code base — known findings C05-F1 … C05-F5):
       for every query and dataset, evaluating with the result caches enabled returns the same rows
       as evaluating with them disabled, on the first evaluation and on re-evaluation.
   What is proved here is the part that lives in the cache INDEX (`IndexedCache`, model Cache.lean):
@@ -13,10 +13,16 @@
   together with C20's `c20_retrieve_uniform_partial` (exact on every prefix-uniform trie) and the
   counter-witness `c20_wildcard_witness` (not exact otherwise — the root of C05-F1).
   That the EVALUATOR's use of the index (check → retrieve → yield_final_output_from_cache,
-  update_cache) is transparent is NOT proved (no cache-aware evaluator model, layer L2, yet): it
-  is decided by the differential check — caching on vs off vs oracle, first and second evaluation,
-  with the number of cache hits taken reported for non-vacuity — and violations inside the scope
-  of a known finding are attributed to it only when caching off gives the specified rows.
+  update_cache) is transparent is NOT proved.  The cache-aware evaluator exists as an executable
+  model (layer L2, `Machine.lean`: the caching branches of Comparator / AND / ElseIf with their
+  duplicate-tracking sets) and is run next to the implementation for three consecutive evaluations
+  with caching on and off; the only theorem about it so far is for caching OFF
+  (`Machine.rowsM_conj_off`, C04).  Transparency is therefore decided by the differential check —
+  caching on vs off vs oracle vs the L2 machine, first and later evaluations, with the number of
+  cache hits taken reported for non-vacuity — and a deviation is attributed to a known finding
+  only when the machine reproduces the implementation's rows (C05-F1/F2) or, for the findings no
+  model reproduces (F3, F4, F5), when caching off gives the specified rows inside the finding's
+  scope.
 -/
 import EqlModel.Props.C20
 
